@@ -62,6 +62,8 @@ BOUND = {
                  "converters lod, json, json_dtypes (from_json with the dtype of every column), pandas, arrow"),
 }
 TIME_CAP = {"quick": 240, "thorough": 3000}
+BOUND["quick"] += '; the one- and two-column frames of <= 2 rows also as the product of rbind (thorough: slice, deepcopy, Arrow round trip) and under a non-UTC time zone; the sign of a zero is part of a value'
+BOUND["thorough"] += "; plus the additions listed for the quick tier"
 EXPLANATION = ("Every execution runs the real exporter and importer; the reference is the list of Python cells read from the "
                "NumPy arrays the frame was built from. The intermediate object is inspected with the format's own null test.")
 
